@@ -75,7 +75,7 @@ extern void *mpt_array_set(MPT_STRUCT(array) *arr, const MPT_STRUCT(type_traits)
 		if ((buf->_size < total)
 		 || (MPT_ENUM(BufferImmutable) & flags)
 		 || (MPT_ENUM(BufferShared) & flags)) {
-			if (!(buf = buf->_vptr->detach(buf, total))) {
+			if (!(buf = buf->_vptr->detach(buf, total < buf->_used ? buf->_used : total))) {
 				return 0;
 			}
 			arr->_buf = buf;
